@@ -88,8 +88,10 @@ def gen_history(rng, idx):
             "txn": {"mode": "2pc", "ops": []}, "txns": txns, "program": prog, "keys": KEYS, "black_from": -1}
 
 
-def si_history_ok(sc, r):
-    """replays all reads against the ts-ordered committed history; returns list of violations"""
+def si_history_ok(sc, r, obs_out=None):
+    """replays all reads against the ts-ordered committed history; returns list of violations.
+    obs_out (optional dict): receives the committed history and every point read (get / batch-get item) with this
+    oracle's own verdict, for the differential against the extracted Coq checker (SI.Model.obs_ok)"""
     bad = []
     txns = r.get("txns") or {}
     steps = {s["i"]: s for s in r.get("steps", [])}
@@ -105,6 +107,8 @@ def si_history_ok(sc, r):
             elif w["type"] in ("Delete", "Del"):
                 ws.append((w["commit"], w["start"], None))
         hist[k] = sorted(ws)
+    if obs_out is not None:
+        obs_out["hist"] = hist; obs_out["obs"] = []
     def read_at(k, ts):
         best = None
         for c, s, val in hist[k]:
@@ -119,7 +123,9 @@ def si_history_ok(sc, r):
     begin_seq, told_seq = {}, {}
     for e in r.get("trace", []):
         if e["kind"] == "begin" and e["f"]["start"] in by_start:
-            begin_seq[by_start[e["f"]["start"]]] = e["seq"]
+            # the instant Begin was CALLED (logged before the start ts is fetched); the begin event itself is logged after
+            # Begin returned, when another transaction's acknowledgement may already lie in between
+            begin_seq[by_start[e["f"]["start"]]] = e["f"].get("call_seq", e["seq"])
         if e["kind"] == "told" and e["f"].get("finish") == "commit" and e["f"]["start"] in by_start and e["f"].get("res") == "ok":
             told_seq[by_start[e["f"]["start"]]] = e["seq"]
     writes = {t: {} for t in txns}
@@ -136,11 +142,16 @@ def si_history_ok(sc, r):
             if k in buf[t]:
                 return buf[t][k]
             return read_at(k, S)
+        def note(k, got):
+            if obs_out is not None and k in hist:
+                obs_out["obs"].append({"step": i, "ts": S, "k": k, "own": (k in buf[t]), "own_v": buf[t].get(k), "got": got, "py_ok": got == expect(k)})
         if st["op"] == "get" and "err" not in res:
+            note(st["k"], res.get("v"))
             if res.get("v") != expect(st["k"]):
                 bad.append(f"step {i}: {t}.get({st['k']}) = {res.get('v')!r}, the committed history at start ts says {expect(st['k'])!r}")
         elif st["op"] == "bget" and "err" not in res:
             for k, got in (res.get("vals") or {}).items():
+                note(k, got)
                 if got != expect(k):
                     bad.append(f"step {i}: {t}.batch_get {k} = {got!r}, want {expect(k)!r}")
         elif st["op"] in ("scan", "rscan") and "err" not in res:
@@ -209,6 +220,9 @@ def si_history_ok(sc, r):
         for b in range(a + 1, len(cl)):
             (ta, va), (tb, vb) = cl[a], cl[b]
             for k in set(writes[ta]) & set(writes[tb]):
+                # an optimistic insert-then-delete writes nothing on the key (check-not-exists only)
+                if (k in inserted[ta] and writes[ta][k] is None) or (k in inserted[tb] and writes[tb][k] is None):
+                    continue
                 sa = fu_of[ta].get(k, va["start"]) if va["pessimistic"] else va["start"]
                 sb = fu_of[tb].get(k, vb["start"]) if vb["pessimistic"] else vb["start"]
                 if sa <= vb["commit_ts"] and sb <= va["commit_ts"]:
@@ -220,6 +234,45 @@ def si_history_ok(sc, r):
                 if txns[tb]["start"] < committed[ta]["commit_ts"]:
                     bad.append(f"{ta} was acknowledged before {tb} began, but start({tb}) = {txns[tb]['start']} < commit({ta}) = {committed[ta]['commit_ts']}")
     return bad
+
+
+def coq_oracle_lines(items):
+    """items: list of (id, keys, obs_out). One modelrun line per history (see ocaml/si/driver.ml)."""
+    lines = []
+    for hid, keys, oo in items:
+        kid = {k: i + 1 for i, k in enumerate(sorted(keys))}
+        vid = {}
+        def V(x):
+            if x is None:
+                return "-"
+            if x not in vid:
+                vid[x] = len(vid) + 1
+            return "%x" % vid[x]
+        h = ";".join("%x=%s" % (kid[k], ",".join("%x.%x.%s" % (c, s_, V(val)) for c, s_, val in oo["hist"][k])) for k in sorted(keys))
+        o = ",".join("%x.%x.%s.%s" % (ob["ts"], kid[ob["k"]], ("n" if not ob["own"] else ("d" if ob["own_v"] is None else "v" + V(ob["own_v"]))), V(ob["got"]))
+                     for ob in oo["obs"])
+        lines.append(f"{hid} {h or '~'} {o or '~'}")
+    return lines
+
+
+def coq_oracle_diff(mexe, items):
+    """runs the extracted Coq checker on every history; returns (reads compared, list of disagreements)"""
+    import subprocess
+    out = subprocess.run([mexe], input="\n".join(coq_oracle_lines(items)) + "\n", capture_output=True, text=True, timeout=600)
+    if out.returncode != 0:
+        return 0, [{"error": out.stderr[-400:]}]
+    got = dict(l.split(" ", 1) for l in out.stdout.splitlines() if l.strip())
+    n, dis = 0, []
+    for hid, keys, oo in items:
+        bits = got.get(hid, "")
+        bits = "" if bits == "~" else bits
+        if len(bits) != len(oo["obs"]):
+            dis.append({"history": hid, "error": "answer length"}); continue
+        for ob, b in zip(oo["obs"], bits):
+            n += 1
+            if (b == "1") != ob["py_ok"]:
+                dis.append({"history": hid, "obs": ob, "coq_obs_ok": b == "1", "python_ok": ob["py_ok"]})
+    return n, dis
 
 
 def main(tier, replay):
@@ -247,18 +300,24 @@ def main(tier, replay):
         if bad:
             v.violation({"kind": "property-oracle", "scenario": sc, "violated": bad})
         return v.finish()
-    n = 400 if tier == "quick" else 5000
+    okm, mexe = vlib.build_model("SI")
+    if not okm:
+        v.violation({"kind": "harness-build", "correspondence": "extracted Coq history checker (coq/extract/SI.v)", "error": mexe}, has_input=False)
+    n = 900 if tier == "quick" else 8000
     scs = [gen_history(rng, i) for i in range(n)]
     res = txnlab.run_scenarios(exe, scs)
     nviol, dist, distinct, traces = 0, {}, set(), []
     reads = 0
+    coq_items = []
     for sc, r in zip(scs, res):
         if r.get("fatal"):
             nviol += 1
             if nviol <= 3:
                 v.violation({"kind": "harness", "correspondence": "txn driver program run", "error": r["fatal"], "scenario": sc}, has_input=False)
             continue
-        bad = si_history_ok(sc, r)
+        oo = {}
+        bad = si_history_ok(sc, r, oo)
+        coq_items.append((sc["id"], sc["keys"], oo))
         nc = sum(1 for tv in r["txns"].values() if tv["result"] == "ok")
         nf = sum(1 for tv in r["txns"].values() if tv["result"].startswith("err"))
         reads += sum(1 for s in r["steps"] if s["op"] in ("get", "bget", "scan", "rscan", "lock"))
@@ -273,6 +332,12 @@ def main(tier, replay):
                 v.violation({"kind": "property-oracle", "scenario": sc, "violated": bad[:6], "txns": r["txns"],
                              "steps": [{k: s.get(k) for k in ("i", "t", "op", "err", "v", "vals", "pairs", "for_update", "commit_ts")} for s in r["steps"]]})
         traces.append((sc, r))
+    if okm:
+        # differential between the two oracles: python read check vs extracted SI.Model.obs_ok on the same history + reads
+        nread, dis = coq_oracle_diff(mexe, coq_items)
+        cov.update(coq_oracle_reads=nread, coq_oracle_disagreements=len(dis))
+        for d in dis[:3]:
+            v.violation({"kind": "oracle-differential", "correspondence": "python si_history_ok read check vs extracted Coq obs_ok (C01_history_oracle_sound)", "detail": d}, has_input=False)
     cov["traces_validated_against_impl"] = len(traces)
     cov.update(evaluations=len(scs), distinct_nontrivial=len(distinct), reads_checked=reads,
                rule="random histories: 2-5 transactions (each optimistic or pessimistic, 2pc / async / 1pc / async+1pc) over 6 shared keys, 12-34 API steps (get, batch-get, scan, reverse scan, set, insert, delete, lock-keys with return values, commit (35% running concurrently with the following steps), rollback), 0-3 region splits up front and splits in between; oracle si_history_ok: every read vs the ts-ordered committed history from MvccGetByKey, own writes, locking reads at for-update ts, write-write disjointness, insert semantics, invisibility of failed transactions, external consistency; distinct non-trivial = distinct programs with >= 2 committed transactions",
